@@ -613,6 +613,11 @@ class Program:
             loc[node.args.vararg.arg] = ANY
         if node.args.kwarg:
             loc[node.args.kwarg.arg] = ANY
+        untyped = [p.arg for p in params if loc.get(p.arg) == ANY]
+        if untyped and not isinstance(node, ast.Lambda):
+            # parameters annotated Any / not annotated: the union of what the call sites pass
+            for name, ty in self._param_types_from_callers(fi, untyped).items():
+                loc[name] = ty
 
         def add(name: str, ty: Ty) -> None:
             if name in loc and loc[name] != ANY and ty != ANY:
@@ -626,6 +631,8 @@ class Program:
                 if isinstance(n, ast.Assign):
                     for t in n.targets:
                         self._bind_target(t, n.value, fi, add)
+                elif isinstance(n, ast.NamedExpr) and isinstance(n.target, ast.Name):
+                    add(n.target.id, self.type_of(n.value, fi))
                 elif isinstance(n, ast.AnnAssign) and isinstance(n.target, ast.Name):
                     add(n.target.id, self.parse_ann(n.annotation, fi.module, hint=n.target.id, fi=fi))
                 elif isinstance(n, (ast.For, ast.AsyncFor)):
@@ -638,6 +645,49 @@ class Program:
                         if isinstance(it.optional_vars, ast.Name):
                             add(it.optional_vars.id, ANY)
         return loc
+
+    def _call_sites_by_name(self) -> dict[str, list[tuple[FuncInfo, ast.Call]]]:
+        idx = self.__dict__.get("_callidx")
+        if idx is None:
+            idx = {}
+            for fn in self.funcs.values():
+                for n in self._own_nodes(fn.node):
+                    if isinstance(n, ast.Call):
+                        f = n.func
+                        nm = f.id if isinstance(f, ast.Name) else (f.attr if isinstance(f, ast.Attribute) else None)
+                        if nm is not None:
+                            idx.setdefault(nm, []).append((fn, n))
+            self.__dict__["_callidx"] = idx
+        return idx
+
+    def _param_types_from_callers(self, fi: FuncInfo, names: list[str]) -> dict[str, Ty]:
+        out: dict[str, Ty] = {}
+        pos = fi.positional_params()
+        i0 = 1 if (fi.is_method and not fi.is_staticmethod) else 0
+        for caller, call in self._call_sites_by_name().get(fi.name, []):
+            if caller is fi:
+                continue
+            try:
+                tg = self.resolve_call(call, caller)
+            except AnalysisError:
+                continue
+            if not any(t.func is fi for t in tg):
+                continue
+            bound: dict[str, ast.expr] = {}
+            for j, a in enumerate(call.args):
+                if isinstance(a, ast.Starred):
+                    break
+                if i0 + j < len(pos):
+                    bound[pos[i0 + j]] = a
+            for kw in call.keywords:
+                if kw.arg is not None:
+                    bound[kw.arg] = kw.value
+            for nm in names:
+                if nm in bound:
+                    ty = self.type_of(bound[nm], caller)
+                    if ty != ANY:
+                        out[nm] = out.get(nm, frozenset()) | ty
+        return out
 
     def _bind_target(self, t: ast.expr, value: ast.expr, fi: FuncInfo, add) -> None:
         if isinstance(t, ast.Name):
